@@ -304,7 +304,8 @@ class Runner:
         if was_partial:
             ctx.count("op:set-on-partial")
         if bad:
-            self.viol(bad[0][0], bad[0][1], {"before": before, "observed_revisions": revs, "all": bad})
+            self.viol(bad[0][0], ("[`migrate set` WITHOUT a version = sync to the last file of the directory, %s] " % v if noarg else "") + bad[0][1],
+                      {"before": before, "observed_revisions": revs, "all": bad, "no_version_argument": noarg})
         # documented decision afterwards: everything up to and including v is applied
         dom = L.in_domain(w.file_list(), w.rev_list())
         if dom:
